@@ -369,6 +369,8 @@ class World:
         for c in r.disk:
             if c["committed"]:
                 p = os.path.join(self.sut, c["file"])
+                if not os.path.exists(p):
+                    raise Violation("C03", "acknowledged-container-missing", f"container {c['file']} was acknowledged as committed but its file does not exist", shape="missing")
                 if p not in r.protected:
                     r.protected[p] = sha_file(p)
                     if self.monitor:
@@ -770,15 +772,27 @@ class World:
         if not r.is_open:
             return "skip"
         commit = bool(op.get("commit", True))
+        via = op.get("via", "close") if commit else "close"
         will_commit = commit and r.writable
         if will_commit:
             self.pre_commit(r)
         try:
-            r.obj.close(commit=commit)
+            if via == "exit":
+                # leaving a `with` block normally
+                r.obj.__exit__(None, None, None)
+            elif via == "exit_exc":
+                # leaving a `with` block because its body raised: the documented effect is the
+                # same as close() (commit what is pending, touch nothing else)
+                try:
+                    raise RuntimeError("body of the with block failed")
+                except RuntimeError as be:
+                    r.obj.__exit__(type(be), be, be.__traceback__)
+            else:
+                r.obj.close(commit=commit)
         except SimRunaway:
             raise
         except Exception as e:
-            raise Violation("C03", "close-raised", f"close(commit={commit}) raised {type(e).__name__}: {e}")
+            raise Violation("C03", "close-raised", f"close(commit={commit}, via {via}) raised {type(e).__name__}: {e}")
         self.count_fault("restart_clean" if commit else "restart_abort")
         obj = r.obj
         r.obj = None
@@ -1446,7 +1460,10 @@ class IH5StoreEngine:
             s = st[i]
             if commit is None:
                 commit = g.random() < (0.8 if profile != "restart" else 0.6)
-            emit({"op": "close", "rec": i, "commit": commit})
+            co = {"op": "close", "rec": i, "commit": commit}
+            if commit and g.random() < 0.3:
+                co["via"] = g.choice(["exit", "exit_exc", "exit_exc"])
+            emit(co)
             if s["open"]:
                 if commit and s["writable"]:
                     s["committed_last"] = True
